@@ -2,14 +2,19 @@
    ONLY restatements closed by `exact`, each followed by Print Assumptions.
    Model: JsonLD/Safe.v; proofs: JsonLD/SafeTheory.v.
 
-   Reading.  [merklize_doc loader cf B safe d] is merklize.MerklizeJSONLD on document
-   [d] with mz.safeMode = safe (merklize.go:1578-1611): Normalize (fresh ToRDF
-   options: SafeMode NOT forwarded), entries, tree, then proc.Compact(obj, nil,
-   options), the only call that sees the mode.  [loader] serves remote contexts, [cf]
-   is fuel for context processing.  [B : backend] is json-gold/merkletree code below
+   Reading.  [merklize_doc cf B safe dl d] is merklize.MerklizeJSONLD on document
+   [d] with mz.safeMode = safe and document loader [dl] (merklize.go:1578-1611):
+   Normalize (fresh ToRDF options: SafeMode NOT forwarded), entries, tree, then
+   proc.Compact(obj, nil, options), the only call that sees the mode; ANY error of
+   that call is returned.  [dl : option dloader]: None = a nil loader; Some l = a
+   stateful loader that answers like [dl_normalize l] while Normalize runs and like
+   [dl_compact l] while Compact runs (each a function URL -> Ok document | Err |
+   Panic); nothing relates the two, so every theorem below holds for every loader
+   behaviour (a host that goes away between the two phases included).  [cf] is fuel
+   for context processing.  [B : backend] is json-gold/merkletree code below
    the modelled level (expansion result, ToRDF+URDNA2015, entries+tree, compaction):
    universally quantified, nothing is assumed about it except where written.
-   [occurs loader cf under c ap nest sw v p cn k s]: in value [v] (expanded under active
+   [occurs ld cf under c ap nest sw v p cn k s] (ld: a loader view): in value [v] (expanded under active
    context [c] and active property [ap]) a member with key [k] sits at path [p]; [cn]
    is the active context in which json-gold expands that key (after property-scoped,
    embedded and type-scoped contexts, type-scoped ones reverted in nested nodes);
@@ -21,8 +26,8 @@
    expansion is an absolute IRI and no blank node identifier (the property text).
 
    The UNCONDITIONAL statement of the property text,
-     merklize_doc loader cf B true d = Ok r ->
-       forall p cn k s, occurs loader cf true empty_ctx "" false false d p cn k s ->
+     merklize_doc cf B true dl d = Ok r ->
+       forall p cn k s, occurs (view_compact dl) cf true empty_ctx "" false false d p cn k s ->
          key_absolute cn k = true,
    is FALSE for the code as it is, for two reasons confirmed on /repo (known findings
    D26, D27; witnesses C15_safe_refuted, C15_weaker_than_absolute):
@@ -39,13 +44,12 @@ Open Scope string_scope.
 
 (* safe mode: success => every member anywhere in the document (top level, nested,
    array items, @graph/@included/@reverse/@nest) outside @list/@set/@default values
-   is defined under its active context *)
+   is defined under its active context — for every loader behaviour *)
 Theorem C15_safe_partial :
-  forall (loader : string -> option json) (cf : nat) (E DS R C : Type) (B : backend E DS R C)
-         (d : json) (r : R),
-  merklize_doc loader cf B true d = Ok r ->
+  forall (cf : nat) (E DS R C : Type) (B : backend E DS R C) (dl : option dloader) (d : json) (r : R),
+  merklize_doc cf B true dl d = Ok r ->
   forall (p : path) (cn : ctx) (k : string),
-  occurs loader cf true empty_ctx "" false false d p cn k false ->
+  occurs (view_compact dl) cf true empty_ctx "" false false d p cn k false ->
   key_defined cn k = true.
 Proof. exact safe_ok_all_defined. Qed.
 Print Assumptions C15_safe_partial.
@@ -55,100 +59,112 @@ Print Assumptions C15_safe_partial.
     D27: key whose expansion contains ':' without being an absolute, non-blank IRI):
    success => the key is a keyword/alias or expands to an absolute IRI *)
 Theorem C15_safe :
-  forall (loader : string -> option json) (cf : nat) (E DS R C : Type) (B : backend E DS R C)
-         (d : json) (r : R),
-  merklize_doc loader cf B true d = Ok r ->
+  forall (cf : nat) (E DS R C : Type) (B : backend E DS R C) (dl : option dloader) (d : json) (r : R),
+  merklize_doc cf B true dl d = Ok r ->
   forall (p : path) (cn : ctx) (k : string),
-  occurs loader cf true empty_ctx "" false false d p cn k false ->
+  occurs (view_compact dl) cf true empty_ctx "" false false d p cn k false ->
   colon_not_absolute cn k = false ->
   key_absolute cn k = true.
 Proof. exact safe_ok_all_absolute. Qed.
 Print Assumptions C15_safe.
 
+(* a context that cannot be loaded (or processed) while Compact runs makes safe mode
+   fail, whatever the loader did while Normalize ran: never Ok with entries already
+   built from an expansion that dropped fields *)
+Theorem C15_safe_load_failure :
+  forall (cf : nat) (E DS R C : Type) (B : backend E DS R C) (dl : option dloader) (d : json),
+  (forall os, undefined_occ (view_compact dl) cf d <> Ok os) ->
+  forall r : R, merklize_doc cf B true dl d <> Ok r.
+Proof. exact safe_compact_phase_failure. Qed.
+Print Assumptions C15_safe_load_failure.
+
 (* some undefined member (outside @list/@set/@default values) => never Ok *)
 Theorem C15_safe_rejects :
-  forall (loader : string -> option json) (cf : nat) (E DS R C : Type) (B : backend E DS R C)
+  forall (cf : nat) (E DS R C : Type) (B : backend E DS R C) (dl : option dloader)
          (d : json) (p : path) (cn : ctx) (k : string),
-  occurs loader cf true empty_ctx "" false false d p cn k false ->
+  occurs (view_compact dl) cf true empty_ctx "" false false d p cn k false ->
   key_defined cn k = false ->
-  forall r : R, merklize_doc loader cf B true d <> Ok r.
+  forall r : R, merklize_doc cf B true dl d <> Ok r.
 Proof. exact safe_rejects_undefined. Qed.
 Print Assumptions C15_safe_rejects.
 
 (* ... and it is exactly the "invalid property" error whenever the same document
    merklizes in unsafe mode *)
 Theorem C15_safe_rejects_err :
-  forall (loader : string -> option json) (cf : nat) (E DS R C : Type) (B : backend E DS R C)
+  forall (cf : nat) (E DS R C : Type) (B : backend E DS R C) (dl : option dloader)
          (d : json) (p : path) (cn : ctx) (k : string) (os : list occ) (r' : R),
-  occurs loader cf true empty_ctx "" false false d p cn k false ->
+  occurs (view_compact dl) cf true empty_ctx "" false false d p cn k false ->
   key_defined cn k = false ->
-  undefined_occ loader cf d = Ok os ->
-  merklize_doc loader cf B false d = Ok r' ->
-  merklize_doc loader cf B true d = Err "invalid property".
+  undefined_occ (view_compact dl) cf d = Ok os ->
+  merklize_doc cf B false dl d = Ok r' ->
+  merklize_doc cf B true dl d = Err "invalid property".
 Proof. exact safe_rejects_undefined_err. Qed.
 Print Assumptions C15_safe_rejects_err.
 
 (* no spurious rejection: if every member expansion reaches is defined, both modes
    give the same result (same root, same error) *)
 Theorem C15_modes_agree_when_defined :
-  forall (loader : string -> option json) (cf : nat) (E DS R C : Type) (B : backend E DS R C)
+  forall (cf : nat) (E DS R C : Type) (B : backend E DS R C) (dl : option dloader)
          (d : json) (os : list occ),
-  undefined_occ loader cf d = Ok os ->
-  (forall p cn k s, occurs loader cf false empty_ctx "" false false d p cn k s ->
+  undefined_occ (view_compact dl) cf d = Ok os ->
+  (forall p cn k s, occurs (view_compact dl) cf false empty_ctx "" false false d p cn k s ->
                     key_defined cn k = true) ->
-  merklize_doc loader cf B true d = merklize_doc loader cf B false d.
+  merklize_doc cf B true dl d = merklize_doc cf B false dl d.
 Proof. exact modes_agree_when_defined. Qed.
 Print Assumptions C15_modes_agree_when_defined.
 
 (* the walk that decides rejection is exact: it reports a position iff it is an
    undefined member expansion reaches *)
 Theorem C15_scan_complete :
-  forall (loader : string -> option json) (cf : nat) (d : json) (p : path) (cn : ctx) (k : string)
+  forall (ld : string -> res json) (cf : nat) (d : json) (p : path) (cn : ctx) (k : string)
          (s : bool) (os : list occ),
-  occurs loader cf false empty_ctx "" false false d p cn k s -> key_defined cn k = false ->
-  undefined_occ loader cf d = Ok os -> In (p, s) os.
-Proof. exact (fun loader cf d p cn k s os H Hd => walk_complete loader cf _ _ _ _ _ _ _ _ _ H Hd os). Qed.
+  occurs ld cf false empty_ctx "" false false d p cn k s -> key_defined cn k = false ->
+  undefined_occ ld cf d = Ok os -> In (p, s) os.
+Proof. exact (fun ld cf d p cn k s os H Hd => walk_complete ld cf _ _ _ _ _ _ _ _ _ H Hd os). Qed.
 Print Assumptions C15_scan_complete.
 
 Theorem C15_scan_sound :
-  forall (loader : string -> option json) (cf : nat) (d : json) (os : list occ) (p : path) (s : bool),
-  undefined_occ loader cf d = Ok os -> In (p, s) os ->
-  exists cn k, occurs loader cf false empty_ctx "" false false d p cn k s /\ key_defined cn k = false.
-Proof. exact (fun loader cf d os p s => walk_sound loader cf _ _ _ _ d os p s). Qed.
+  forall (ld : string -> res json) (cf : nat) (d : json) (os : list occ) (p : path) (s : bool),
+  undefined_occ ld cf d = Ok os -> In (p, s) os ->
+  exists cn k, occurs ld cf false empty_ctx "" false false d p cn k s /\ key_defined cn k = false.
+Proof. exact (fun ld cf d os p s => walk_sound ld cf _ _ _ _ d os p s). Qed.
 Print Assumptions C15_scan_sound.
 
-(* REFUTED full statement, reason (1): a document with an undefined member that safe
-   mode accepts (for the backend that always succeeds); in general, members whose
-   error is swallowed are invisible to safe mode *)
+(* REFUTED unconditional statement, reason (D26): a document with an undefined member
+   that safe mode accepts (for the backend that always succeeds, offline loader); in
+   general, members whose error is swallowed are invisible to safe mode *)
 Theorem C15_safe_refuted :
   exists (d : json) (p : path),
-    merklize_doc (fun _ => None) 20 Examples.idB true d = Ok d /\
-    undefined_occ (fun _ => None) 20 d = Ok [(p, true)].
+    merklize_doc 20 Examples.idB true Examples.steady_none d = Ok d /\
+    undefined_occ Examples.no_loader 20 d = Ok [(p, true)].
 Proof. exact (ex_intro _ _ (ex_intro _ _ Examples.in_set_accepted)). Qed.
 Print Assumptions C15_safe_refuted.
 
 Theorem C15_swallowed_invisible :
-  forall (loader : string -> option json) (cf : nat) (E DS R C : Type) (B : backend E DS R C)
+  forall (cf : nat) (E DS R C : Type) (B : backend E DS R C) (dl : option dloader)
          (d : json) (os : list occ),
-  undefined_occ loader cf d = Ok os -> existsb unswallowed os = false ->
-  merklize_doc loader cf B true d = merklize_doc loader cf B false d.
+  undefined_occ (view_compact dl) cf d = Ok os -> existsb unswallowed os = false ->
+  merklize_doc cf B true dl d = merklize_doc cf B false dl d.
 Proof. exact swallowed_invisible. Qed.
 Print Assumptions C15_swallowed_invisible.
 
-(* reason (2): json-gold's "defined" is weaker than "expands to an absolute IRI" *)
+(* reason (D27): json-gold's "defined" is weaker than "expands to an absolute IRI" *)
 Theorem C15_weaker_than_absolute :
-  merklize_doc (fun _ => None) 20 Examples.idB true Examples.blank_prop = Ok Examples.blank_prop /\
+  merklize_doc 20 Examples.idB true Examples.steady_none Examples.blank_prop = Ok Examples.blank_prop /\
   key_absolute (Ctx [] None None) "_:p" = false /\ key_defined (Ctx [] None None) "_:p" = true.
 Proof. exact Examples.blank_property_passes. Qed.
 Print Assumptions C15_weaker_than_absolute.
 
 (* unsafe mode: exactly the merklization of the document without the undefined
-   members — under the interface property of json-gold's expansion stated as the
-   hypothesis (validated per run: harness class c15-expansion-keeps-undefined) *)
+   members — for a loader [ld] that answers the same way in both phases, under the
+   interface property of json-gold's expansion stated as the hypothesis (validated
+   per run: harness class c15-expansion-keeps-undefined) *)
 Theorem C15_unsafe :
-  forall (loader : string -> option json) (cf : nat) (E DS R C : Type) (B : backend E DS R C),
-  (forall d, b_expand B d = b_expand B (strip_undefined loader cf d)) ->
-  forall d, merklize_doc loader cf B false d = merklize_doc loader cf B false (strip_undefined loader cf d).
+  forall (cf : nat) (E DS R C : Type) (B : backend E DS R C),
+  (forall ld d, b_expand B ld d = b_expand B ld (strip_undefined ld cf d)) ->
+  forall (ld : string -> res json) (d : json),
+  let dl := Some {| dl_normalize := ld; dl_compact := ld |} in
+  merklize_doc cf B false dl d = merklize_doc cf B false dl (strip_undefined ld cf d).
 Proof. exact unsafe_is_stripped. Qed.
 Print Assumptions C15_unsafe.
 
@@ -158,59 +174,89 @@ Print Assumptions C15_unsafe.
    C15_scan_sound / C15_scan_complete the reported members are exactly the undefined
    members expansion reaches *)
 Theorem C15_unsafe_removal :
-  forall (loader : string -> option json) (cf : nat) (E DS R C : Type) (B : backend E DS R C),
-  (forall d, b_expand B d = b_expand B (strip_undefined loader cf d)) ->
-  forall (d : json) (os : list occ),
-  wf d -> undefined_occ loader cf d = Ok os ->
-  merklize_doc loader cf B false d =
-  merklize_doc loader cf B false (remove_members (map fst os) d).
+  forall (cf : nat) (E DS R C : Type) (B : backend E DS R C),
+  (forall ld d, b_expand B ld d = b_expand B ld (strip_undefined ld cf d)) ->
+  forall (ld : string -> res json) (d : json) (os : list occ),
+  wf d -> undefined_occ ld cf d = Ok os ->
+  let dl := Some {| dl_normalize := ld; dl_compact := ld |} in
+  merklize_doc cf B false dl d = merklize_doc cf B false dl (remove_members (map fst os) d).
 Proof. exact unsafe_is_removal. Qed.
 Print Assumptions C15_unsafe_removal.
 
 Theorem C15_strip_is_removal :
-  forall (loader : string -> option json) (cf : nat) (d : json) (os : list occ),
-  wf d -> undefined_occ loader cf d = Ok os ->
-  strip_undefined loader cf d = remove_members (map fst os) d.
+  forall (ld : string -> res json) (cf : nat) (d : json) (os : list occ),
+  wf d -> undefined_occ ld cf d = Ok os ->
+  strip_undefined ld cf d = remove_members (map fst os) d.
 Proof. exact strip_is_removal. Qed.
 Print Assumptions C15_strip_is_removal.
 
-(* the default options are safe, at every entry point that merklizes *)
+(* the default is safe at every entry point that merklizes, for EVERY loader
+   configuration: [default] = the process-wide loader (None after
+   SetDocumentLoader(nil)), [opts] may contain WithDocumentLoader (nil allowed), IPFS
+   options and anything else except WithSafeMode.  The loader actually used is
+   getDocumentLoader's choice: explicit loader, else IPFS loader, else the default. *)
 Theorem C15_default :
-  forall (loader : string -> option json) (cf : nat) (E DS R C : Type) (B : backend E DS R C) (d : json),
-  MerklizeJSONLD loader cf B [] d = merklize_doc loader cf B true d /\
-  W3CCredential_Merklize loader cf B d [] = merklize_doc loader cf B true d /\
-  ToCoreClaim_merklize loader cf B d None = merklize_doc loader cf B true d /\
-  VerifyProof_merklize loader cf B d [] = merklize_doc loader cf B true d /\
-  ld_safe_mode options_jsonld_options = true.
+  forall (cf : nat) (E DS R C : Type) (B : backend E DS R C)
+         (default : option dloader) (opts : list mz_option) (d : json),
+  (forall o, In o opts -> forall b, o <> WithSafeMode b) ->
+  let ldr :=
+    match fold_left (fun acc o => match o with WithDocumentLoader l => l | _ => acc end) opts None with
+    | Some l => Some l
+    | None => match fold_left (fun acc o => match o with WithIPFS l => Some l | _ => acc end) opts None with
+              | Some l => Some l
+              | None => default
+              end
+    end in
+  MerklizeJSONLD cf B default opts d = merklize_doc cf B true ldr d /\
+  W3CCredential_Merklize cf B default d opts = merklize_doc cf B true ldr d /\
+  ToCoreClaim_merklize cf B default d (Some opts) = merklize_doc cf B true ldr d /\
+  ToCoreClaim_merklize cf B default d None = merklize_doc cf B true default d /\
+  VerifyProof_merklize cf B default d opts = merklize_doc cf B true ldr d /\
+  ld_safe_mode (options_jsonld_options default) = true.
 Proof. exact default_safe. Qed.
 Print Assumptions C15_default.
 
 (* every public entry point that merklizes forwards the caller's mode:
    merklize.MerklizeJSONLD, verifiable.W3CCredential.Merklize,
    W3CCredential.ToCoreClaim (CoreClaimOptions.MerklizerOpts), W3CCredential.VerifyProof
-   (verifyConfig.merklizeOptions); the last WithSafeMode wins, none means safe *)
+   (verifyConfig.merklizeOptions); the last WithSafeMode wins, none means safe;
+   the mode does not depend on the loader configuration *)
 Theorem C15_plumbing :
-  forall (loader : string -> option json) (cf : nat) (E DS R C : Type) (B : backend E DS R C)
-         (opts : list mz_option) (d : json),
-  let mode := fold_left (fun acc o => match o with WithSafeMode b => b | OOther => acc end) opts true in
-  MerklizeJSONLD loader cf B opts d = merklize_doc loader cf B mode d /\
-  W3CCredential_Merklize loader cf B d opts = merklize_doc loader cf B mode d /\
-  ToCoreClaim_merklize loader cf B d (Some opts) = merklize_doc loader cf B mode d /\
-  VerifyProof_merklize loader cf B d opts = merklize_doc loader cf B mode d.
+  forall (cf : nat) (E DS R C : Type) (B : backend E DS R C)
+         (default : option dloader) (opts : list mz_option) (d : json),
+  let mode := fold_left (fun acc o => match o with WithSafeMode b => b | _ => acc end) opts true in
+  let ldr :=
+    match fold_left (fun acc o => match o with WithDocumentLoader l => l | _ => acc end) opts None with
+    | Some l => Some l
+    | None => match fold_left (fun acc o => match o with WithIPFS l => Some l | _ => acc end) opts None with
+              | Some l => Some l
+              | None => default
+              end
+    end in
+  MerklizeJSONLD cf B default opts d = merklize_doc cf B mode ldr d /\
+  W3CCredential_Merklize cf B default d opts = merklize_doc cf B mode ldr d /\
+  ToCoreClaim_merklize cf B default d (Some opts) = merklize_doc cf B mode ldr d /\
+  VerifyProof_merklize cf B default d opts = merklize_doc cf B mode ldr d.
 Proof. exact plumbing_all. Qed.
 Print Assumptions C15_plumbing.
 
 Theorem C15_plumbing_last_wins :
   forall (opts : list mz_option) (b : bool),
-  fold_left (fun acc o => match o with WithSafeMode b => b | OOther => acc end)
+  fold_left (fun acc o => match o with WithSafeMode b => b | _ => acc end)
             (opts ++ [WithSafeMode b]) true = b.
 Proof. exact effective_safe_last. Qed.
 Print Assumptions C15_plumbing_last_wins.
 
+(* newJSONLDOptions sets SafeMode whatever the loader is (nil included) *)
+Theorem C15_options_mode :
+  forall (safe : bool) (dl : option dloader), ld_safe_mode (new_jsonld_options safe dl) = safe.
+Proof. exact new_options_mode. Qed.
+Print Assumptions C15_options_mode.
+
 (* Normalize never sees the mode (processor.go:572 builds fresh options) *)
 Theorem C15_normalize_ignores_mode :
-  forall (loader : string -> option json) (cf : nat) (E DS R C : Type) (B : backend E DS R C)
-         (o1 o2 : ld_options) (d : json),
-  proc_normalize loader cf B o1 d = proc_normalize loader cf B o2 d.
+  forall (cf : nat) (E DS R C : Type) (B : backend E DS R C)
+         (s1 s2 : bool) (dl : option dloader) (d : json),
+  proc_normalize cf B (new_jsonld_options s1 dl) d = proc_normalize cf B (new_jsonld_options s2 dl) d.
 Proof. exact normalize_ignores_mode. Qed.
 Print Assumptions C15_normalize_ignores_mode.
